@@ -119,6 +119,144 @@ theorem fold_rows_stay_paired {α β} (k : Nat) (rs : List α) (ts : List β)
   simp only [List.zip, List.take_zipWith, List.drop_zipWith]
   rw [List.zipWith_append (by simp [hlen])]
 
+
+/-! ## `fold`: the guard is exact, the tail, positions, sizes, counted targets -/
+
+/-- **the property's guard is exactly the set of calls that return**: `fold(k)` yields a
+result iff `2 ≤ k ≤ n` (`k = 0` divides by zero, `k = 1` has nothing to concatenate, `k > n`
+asks ndarray for chunks of size 0). -/
+theorem fold_guard_exact {α} (k : Nat) (ds : List α) :
+    (foldPairs k ds).isSome = true ↔ 2 ≤ k ∧ k ≤ ds.length := by
+  constructor
+  · intro h
+    unfold foldPairs at h
+    by_cases hk0 : k = 0
+    · simp [hk0] at h
+    · by_cases hfs : ds.length / k = 0
+      · simp [hk0, hfs] at h
+      · simp only [hk0, hfs, if_false] at h
+        by_cases hg : (chunks (ds.length / k) ds).length < 2 ∨ (chunks (ds.length / k) ds).length < k
+        · simp [hg] at h
+        · have hkn : k ≤ ds.length := by
+            rcases Nat.lt_or_ge ds.length k with hlt | hge
+            · exact absurd (Nat.div_eq_of_lt hlt) hfs
+            · exact hge
+          refine ⟨?_, hkn⟩
+          -- k = 1 gives a single chunk
+          rcases Nat.lt_or_ge k 2 with hlt | hge
+          · exfalso
+            have hk1 : k = 1 := by omega
+            subst hk1
+            apply hg; left
+            rw [chunks_length, Nat.div_one]
+            have hn : 0 < ds.length := by omega
+            have : (ds.length + ds.length - 1) / ds.length = 1 := by
+              apply Nat.div_eq_of_lt_le <;> omega
+            omega
+          · exact hge
+  · rintro ⟨hk, hn⟩
+    have hfs : 0 < ds.length / k := Nat.div_pos hn (by omega)
+    have hlen : k ≤ (chunks (ds.length / k) ds).length := by
+      rw [chunks_length, Nat.le_div_iff_mul_le hfs]
+      have h1 : k * (ds.length / k) ≤ ds.length := Nat.mul_div_le _ _
+      omega
+    unfold foldPairs
+    have hg : ¬ ((chunks (ds.length / k) ds).length < 2 ∨ (chunks (ds.length / k) ds).length < k) := by omega
+    simp [show ¬ k = 0 by omega, show ¬ ds.length / k = 0 by omega, hg]
+
+example : (foldPairs 1 [1, 2, 3]).isSome = false ∧ (foldPairs 4 [1, 2, 3]).isSome = false ∧
+    (foldPairs 3 [1, 2, 3]).isSome = true := by decide
+
+/-- **the remaining tail is training-only**: the `n mod k`… more precisely the rows after the
+first `k * (n / k)` are a suffix of every training part (and by `fold_validation_blocks` in no
+validation part). -/
+theorem fold_tail_training_only {α} (k : Nat) (ds : List α) (hk : 2 ≤ k) (hn : k ≤ ds.length)
+    (ps : List (List α × List α)) (h : foldPairs k ds = some ps) :
+    ∀ p ∈ ps, ds.drop (k * (ds.length / k)) <:+ p.1 := by
+  rw [fold_spec k ds hk hn] at h
+  cases h
+  intro p hp
+  simp only [List.mem_map, List.mem_range] at hp
+  obtain ⟨i, hi, rfl⟩ := hp
+  generalize ds.length / k = fs
+  have e : ds.drop (k * fs) = (ds.drop ((i + 1) * fs)).drop ((k - (i + 1)) * fs) := by
+    rw [List.drop_drop]; congr 1
+    rw [← Nat.add_mul]; congr 1; omega
+  simp only [e]
+  exact List.IsSuffix.trans (List.drop_suffix _ _) (List.suffix_append _ _)
+
+example : ([6] : List Nat) <:+ [2, 3, 4, 5, 6] := ⟨[2, 3, 4, 5], rfl⟩
+
+/-- **each of the first `k * (n / k)` samples is validated exactly once, and where**: sample `j`
+sits at position `j mod fs` of the validation part of fold `j / fs` (`fs = n / k`); with
+`fold_valid_lengths` (every validation part has `fs` rows) and `fold_validation_blocks` (their
+concatenation is `take (k*fs)`) this is a bijection between validated positions and
+`[0, k*fs)`. -/
+theorem fold_validated_at {α} (k : Nat) (ds : List α) (hk : 2 ≤ k) (hn : k ≤ ds.length)
+    (ps : List (List α × List α)) (h : foldPairs k ds = some ps) (j : Nat)
+    (hj : j < k * (ds.length / k)) :
+    ((ps[j / (ds.length / k)]?).map fun p => p.2[j % (ds.length / k)]?) = some ds[j]? := by
+  rw [fold_spec k ds hk hn] at h
+  cases h
+  have hfs : 0 < ds.length / k := Nat.div_pos hn (by omega)
+  generalize ds.length / k = fs at *
+  have hq : j / fs < k := by
+    rw [Nat.div_lt_iff_lt_mul hfs]; exact hj
+  have hr : j % fs < fs := Nat.mod_lt _ hfs
+  simp only [List.getElem?_map, List.getElem?_range hq, Option.map_some]
+  congr 1
+  rw [List.getElem?_take_of_lt hr, List.getElem?_drop]
+  congr 1
+  rw [Nat.mul_comm]; exact Nat.div_add_mod j fs
+
+example : (([([2, 3, 4], [0, 1]), ([0, 1, 4], [2, 3])] : List (List Nat × List Nat))[3 / 2]?).map
+    (fun p => p.2[3 % 2]?) = some ([0, 1, 2, 3, 4][3]?) := by decide
+
+/-- sizes: every validation part has `n / k` rows, every training part the other `n - n / k` -/
+theorem fold_valid_lengths {α} (k : Nat) (ds : List α) (hk : 2 ≤ k) (hn : k ≤ ds.length)
+    (ps : List (List α × List α)) (h : foldPairs k ds = some ps) :
+    ∀ p ∈ ps, p.2.length = ds.length / k ∧ p.1.length = ds.length - ds.length / k := by
+  rw [fold_spec k ds hk hn] at h
+  cases h
+  intro p hp
+  simp only [List.mem_map, List.mem_range] at hp
+  obtain ⟨i, hi, rfl⟩ := hp
+  have hkn : k * (ds.length / k) ≤ ds.length := Nat.mul_div_le _ _
+  generalize ds.length / k = fs at *
+  have h1 : (i + 1) * fs ≤ k * fs := Nat.mul_le_mul_right _ (by omega)
+  have h2 : (i + 1) * fs = i * fs + fs := by rw [Nat.succ_mul]
+  simp only [List.length_take, List.length_drop, List.length_append]
+  omega
+
+example : foldPairs 3 [0, 1, 2, 3, 4, 5, 6, 7] = some
+    [([2, 3, 4, 5, 6, 7], [0, 1]), ([0, 1, 4, 5, 6, 7], [2, 3]), ([0, 1, 2, 3, 6, 7], [4, 5])] := by decide
+
+/-- **`CountedTargets` datasets**: the label counts carried by each part of a pair are the
+counts of that part's own targets (`new_targets` recounts), and the two parts' counts add up to
+the dataset's count for every label. -/
+theorem fold_counted_recount {γ} [BEq γ] [LawfulBEq γ] (k : Nat) (tgts : List γ) (hk : 2 ≤ k) (hn : k ≤ tgts.length)
+    (cps : List ((List γ × (γ → Nat)) × (List γ × (γ → Nat)))) (h : foldCounted k tgts = some cps) :
+    cps.length = k ∧ ∀ c ∈ cps, (∀ l, c.1.2 l = c.1.1.count l) ∧ (∀ l, c.2.2 l = c.2.1.count l) ∧
+      ∀ l, c.1.2 l + c.2.2 l = tgts.count l := by
+  unfold foldCounted at h
+  cases hps : foldPairs k tgts with
+  | none => simp [hps] at h
+  | some ps =>
+    simp only [hps, Option.map_some, Option.some.injEq] at h
+    subst h
+    obtain ⟨hl, hperm⟩ := fold_partition k tgts hk hn ps hps
+    refine ⟨by simp [hl], ?_⟩
+    intro c hc
+    simp only [List.mem_map] at hc
+    obtain ⟨p, hp, rfl⟩ := hc
+    refine ⟨fun l => rfl, fun l => rfl, fun l => ?_⟩
+    have := (hperm p hp).count_eq l
+    simp only [labelCount]
+    rw [← this, List.count_append]
+
+example : (foldCounted 2 [0, 1, 1, 0, 1]).map (fun cps => cps.map fun c => (c.1.2 1, c.2.2 1)) =
+    some [(2, 1), (2, 1)] := by decide
+
 /-! ## `iter_fold`: in-place block swapping on the flat buffers -/
 
 /-- **restoration + what the closure sees**, for every `n`, every `0 < k ≤ n`, every
@@ -184,6 +322,95 @@ theorem swap_block_involutive {α} (buf : List α) (i fs s : Nat)
     swapBlock (swapBlock buf i fs s) i fs s = buf :=
   swapBlock_involutive buf i fs s hlen
 
+
+/-! ## `iter_fold`: layout guard, validation rows, partition, pairing -/
+
+/-- the documented panic: a dataset that is not contiguous in standard order is refused
+(`as_slice_mut().unwrap()`), nothing is swapped -/
+theorem iterFoldLayout_nonstd {α β} (stdR stdT : Bool) (n k p t : Nat) (recs : List α) (tgts : List β)
+    (h : stdR = false ∨ stdT = false) : iterFoldLayout stdR stdT n k p t recs tgts = none := by
+  unfold iterFoldLayout
+  by_cases hg : k = 0 ∨ n < k
+  · simp [hg]
+  · simp [hg, h]
+
+example : iterFoldLayout false true 4 2 1 1 [0, 1, 2, 3] [10, 11, 12, 13] = none := by decide
+
+/-- on standard layout the guarded call is the in-place loop the other theorems are about -/
+theorem iterFoldLayout_std {α β} (n k p t : Nat) (recs : List α) (tgts : List β) :
+    iterFoldLayout true true n k p t recs tgts = iterFold n k p t recs tgts := by
+  unfold iterFoldLayout iterFold
+  by_cases hg : k = 0 ∨ n < k
+  · simp [hg]
+  · simp [hg]
+
+example : (iterFoldLayout true true 4 2 1 1 [0, 1, 2, 3] [10, 11, 12, 13]).map (·.finalR) =
+    some [0, 1, 2, 3] := by decide
+
+/-- **validation views are whole rows**: on a row-major buffer whose rows are `p > 0` cells wide,
+chunk `i` of `sample_chunks(fs)` is exactly rows `[i*fs, (i+1)*fs)` (flattened) -/
+theorem iterFold_valid_rows {α} (rows : List (List α)) (p i fs : Nat) (hp : 0 < p) (hfs : 0 < fs)
+    (hrow : ∀ r ∈ rows, r.length = p) (hlen : (i + 1) * fs ≤ rows.length) :
+    (chunks (fs * p) rows.flatten)[i]? = some ((rows.drop (i * fs)).take fs).flatten := by
+  have hw : 0 < fs * p := Nat.mul_pos hfs hp
+  have hflat : rows.flatten.length = rows.length * p := by
+    clear hlen
+    induction rows with
+    | nil => simp
+    | cons r rs ih =>
+      have hr : r.length = p := hrow r (by simp)
+      have := ih (fun x hx => hrow x (by simp [hx]))
+      simp only [List.flatten_cons, List.length_append, List.length_cons, this, hr, Nat.succ_mul]
+      omega
+  have hle : (i + 1) * (fs * p) ≤ rows.flatten.length := by
+    rw [hflat, ← Nat.mul_assoc]; exact Nat.mul_le_mul_right _ hlen
+  have hi : i < (rows.flatten.length + fs * p - 1) / (fs * p) := by
+    have : i + 1 ≤ (rows.flatten.length + fs * p - 1) / (fs * p) := by
+      rw [Nat.le_div_iff_mul_le hw]; omega
+    omega
+  rw [chunks_getElem? _ _ _ hi]
+  congr 1
+  have e1 : i * (fs * p) = (i * fs) * p := by rw [Nat.mul_assoc]
+  rw [e1, drop_flatten_uniform rows p _ hrow,
+    take_flatten_uniform _ p _ (fun r hr => hrow r (List.mem_of_mem_drop hr))]
+
+example : (chunks (2 * 2) [[0, 1], [2, 3], [4, 5], [6, 7], [8, 9]].flatten)[1]? =
+    some (([[0, 1], [2, 3], [4, 5], [6, 7], [8, 9]].drop (1 * 2)).take 2).flatten := by decide
+
+/-- **fold `i` of `iter_fold` is a split of the dataset**: the rows the closure sees together with
+validation block `i` are a permutation of all rows -/
+theorem iterFold_partition {α} (rows : List α) (i fs : Nat) (hlen : (i + 1) * fs ≤ rows.length) :
+    ((swapBlock rows i fs 1).drop fs ++ (rows.drop (i * fs)).take fs).Perm rows := by
+  have h1 := swapBlock_drop_perm rows i fs hlen
+  have e : rows.drop ((i + 1) * fs) = (rows.drop (i * fs)).drop fs := by
+    rw [List.drop_drop]; congr 1; rw [Nat.succ_mul]
+  have h2 : rows = rows.take (i * fs) ++ ((rows.drop (i * fs)).take fs ++ (rows.drop (i * fs)).drop fs) := by
+    rw [List.take_append_drop, List.take_append_drop]
+  refine (List.Perm.append_right _ h1).trans ?_
+  rw [e]
+  conv => rhs; rw [h2]
+  rw [List.append_assoc]
+  exact List.Perm.append_left _ List.perm_append_comm
+
+example : ((swapBlock [0, 1, 2, 3, 4] 1 2 1).drop 2 ++ ([0, 1, 2, 3, 4].drop (1 * 2)).take 2).Perm
+    [0, 1, 2, 3, 4] := by decide
+
+/-- **rows stay paired under the in-place swap**: swapping the zipped (record, target) rows is
+swapping records and targets separately with the same `(i, fs)` — which is what the Rust code does
+on its two buffers -/
+theorem iterFold_rows_stay_paired {α β} (rs : List α) (ts : List β) (i fs : Nat)
+    (hlen : rs.length = ts.length) :
+    swapBlock (rs.zip ts) i fs 1 = (swapBlock rs i fs 1).zip (swapBlock ts i fs 1) := by
+  unfold swapBlock
+  by_cases hi : i = 0
+  · simp [hi]
+  · simp only [hi, if_false, List.zip, List.take_zipWith, List.drop_zipWith]
+    rw [List.zipWith_append (by simp [hlen]), List.zipWith_append (by simp [hlen]),
+      List.zipWith_append (by simp [hlen])]
+
+example : swapBlock ([1, 2, 3, 4, 5].zip [10, 20, 30, 40, 50]) 1 2 1 =
+    (swapBlock [1, 2, 3, 4, 5] 1 2 1).zip (swapBlock [10, 20, 30, 40, 50] 1 2 1) := by decide
+
 /-! ## `cross_validate` -/
 
 /-- a failing fit surfaces as that error: the first failing model of the fold, whatever
@@ -243,5 +470,267 @@ theorem cv_is_mean {ε σ} [Field σ] (k m t : Nat)
 
 example : crossValidate (ε := String) (σ := Nat) 2 1 1
     [([.ok ()], [.ok [2]]), ([.ok ()], [.ok [4]])] = .ok [[3]] := by decide
+
+/-! ## `cross_validate`: which errors, no models, the calling form on a dataset -/
+
+/-- **an error that comes out is the error of some failing fit or evaluation** (nothing is
+invented, nothing is re-wrapped) -/
+theorem cv_error_is_scripted {ε σ} [Add σ] [Div σ] [OfNat σ 0] [NatCast σ] (k m t : Nat)
+    (folds : List (List (Except ε Unit) × List (Except ε (List σ)))) (e : ε)
+    (h : crossValidate k m t folds = .error e) :
+    ∃ f ∈ folds, (.error e ∈ f.1 ∨ .error e ∈ f.2) := by
+  unfold crossValidate at h
+  cases hm : folds.mapM (fun f => cvFold f.1 f.2) with
+  | ok fes => simp [hm] at h
+  | error e' =>
+    rw [hm] at h
+    have he : e' = e := by simpa using h
+    subst he
+    obtain ⟨f, hf, hfe⟩ := mapM_except_error_mem _ _ _ hm
+    refine ⟨f, hf, ?_⟩
+    unfold cvFold at hfe
+    cases hfit : f.1.mapM id with
+    | error e2 =>
+      rw [hfit] at hfe
+      have : e2 = e' := by simpa using hfe
+      subst this
+      obtain ⟨a, ha, hae⟩ := mapM_except_error_mem _ _ _ hfit
+      left; simpa [id] using hae ▸ ha
+    | ok _ =>
+      rw [hfit] at hfe
+      obtain ⟨a, ha, hae⟩ := mapM_except_error_mem _ _ _ hfe
+      right; simpa [id] using hae ▸ ha
+
+example : crossValidate (ε := String) (σ := Nat) 2 1 1
+    [([.ok ()], [.ok [2]]), ([.ok ()], [.error "eval:3"])] = .error "eval:3" := by decide
+
+/-- with every fit and every evaluation fine, a fold yields its score rows (the hypothesis of
+`cv_is_mean` is satisfiable for every table of scores) -/
+theorem cvFold_ok {ε σ} (fits : List (Except ε Unit)) (hf : ∀ a ∈ fits, a = .ok ())
+    (vs : List (List σ)) : cvFold fits (vs.map .ok) = .ok vs := by
+  unfold cvFold
+  obtain ⟨bs, hbs, _⟩ := mapM_except_ok id fits (fun a ha => ⟨(), hf a ha⟩)
+  rw [hbs]
+  exact mapM_id_ok_map vs
+
+example : cvFold (ε := String) [.ok (), .ok ()] ([[1], [2]].map .ok) = .ok [[1], [2]] := by decide
+
+/-- **no candidate model**: an empty `parameters` slice is fine, the result is the empty table -/
+theorem cv_no_models {ε σ} [Add σ] [Div σ] [OfNat σ 0] [NatCast σ] (k t : Nat)
+    (folds : List (List (Except ε Unit) × List (Except ε (List σ))))
+    (h : ∀ f ∈ folds, f = ([], [])) :
+    crossValidate k 0 t folds = .ok [] := by
+  obtain ⟨fes, hfes, _⟩ := mapM_except_ok (fun f : List (Except ε Unit) × List (Except ε (List σ)) => cvFold f.1 f.2) folds
+    (fun f hf => ⟨[], by rw [h f hf]; rfl⟩)
+  unfold crossValidate
+  rw [hfes]
+  simp only [List.replicate_zero]
+  have : ∀ (l : List (List (List σ))) , l.foldl (fun acc fe => addMat acc (addMat [] fe)) [] = [] := by
+    intro l
+    induction l with
+    | nil => rfl
+    | cons x xs ih => simpa [addMat] using ih
+  rw [this]; rfl
+
+example : crossValidate (ε := String) (σ := Nat) 3 0 2 [([], []), ([], []), ([], [])] = .ok [] := by
+  decide
+
+/-- **real fit results amount to the scripted tables**: a fold of `cross_validate` on actual
+`Fit`/`Predict` results (`cvFoldM`: all fits, then model by model predict + eval) is `cvFold` on
+the outcome tables `scriptOf` reads off them — so `cvFold_fit_error`, `cvFold_eval_error`,
+`cv_error_first`, `cv_is_mean` speak about the real calling form -/
+theorem cvFoldM_script {ε μ σ} (fits : List (Except ε μ)) (score : μ → Except ε (List σ)) :
+    cvFoldM fits score = cvFold (scriptOf fits score).1 (scriptOf fits score).2 := by
+  unfold cvFoldM cvFold scriptOf
+  rcases except_list_cases fits with ⟨ms, rfl⟩ | ⟨pre, e, post, rfl⟩
+  · rw [mapM_id_ok_map]
+    simp only [List.map_map]
+    have h1 : ((fun f : Except ε μ => f.map fun _ => ()) ∘ Except.ok) =
+        fun _ => (Except.ok () : Except ε Unit) := rfl
+    have h2 : ((fun f : Except ε μ => f.bind score) ∘ Except.ok) = score := rfl
+    rw [h1, h2]
+    obtain ⟨us, hus, _⟩ := mapM_except_ok id (ms.map fun _ => (Except.ok () : Except ε Unit))
+      (fun a ha => by
+        simp only [List.mem_map] at ha
+        obtain ⟨x, _, rfl⟩ := ha; exact ⟨(), rfl⟩)
+    rw [hus]
+    exact (mapM_id_map _ _).symm
+  · rw [mapM_except_error id (pre.map .ok) (.error e) post e
+      (fun a ha => by simp only [List.mem_map] at ha; obtain ⟨x, _, rfl⟩ := ha; exact ⟨x, rfl⟩) rfl]
+    simp only [List.map_append, List.map_cons]
+    rw [mapM_except_error id _ (Except.map (fun _ => ()) (.error e)) _ e
+      (fun a ha => by
+        simp only [List.map_map, List.mem_map, Function.comp] at ha
+        obtain ⟨x, _, rfl⟩ := ha; exact ⟨(), rfl⟩) rfl]
+
+example : cvFoldM (ε := String) (σ := Nat) [.ok 1, .error "fit:2"] (fun m => .ok [m]) = .error "fit:2" := by
+  decide
+
+/-- **`cross_validate` on a dataset, for every `0 < k ≤ n`**: it is `crossValidate` over the folds of
+`iter_fold` — model `m` of fold `i` is `parameters[m].fit` on fold `i`'s training view (blocks `0`
+and `i` exchanged, first block dropped), its score is `eval(predict(validation block i), targets
+of validation block i)` — and the buffers are handed back as they were. -/
+theorem cv_on_spec {α β ε μ σ} [Add σ] [Div σ] [OfNat σ 0] [NatCast σ]
+    (n k p t : Nat) (recs : List α) (tgts : List β)
+    (params : List (List α × List β → Except ε μ))
+    (score : μ → List α × List β → Except ε (List σ)) (nt : Nat)
+    (hk : 0 < k) (hn : k ≤ n) (hr : recs.length = n * p) (hg : tgts.length = n * t) :
+    crossValidateOn true true n k p t recs tgts params score nt = some
+      { result := crossValidate k params.length nt
+          ((((List.range k).map fun i =>
+              ((swapBlock recs i (n / k) p).drop (n / k * p), (swapBlock tgts i (n / k) t).drop (n / k * t))).zip
+            (((chunks (n / k * p) recs).take k).zip ((chunks (n / k * t) tgts).take k))).map
+            fun (tr, va) => scriptOf (params.map fun f => f tr) (fun md => score md va)),
+        finalR := recs, finalT := tgts } := by
+  unfold crossValidateOn
+  rw [iterFoldLayout_std, iterFold_spec n k p t recs tgts hk hn hr hg]
+
+example : (crossValidateOn (ε := String) (σ := Nat) true true 4 2 1 1 [0, 1, 2, 3] [10, 11, 12, 13]
+    [fun tr => .ok tr.1.sum] (fun md va => .ok [md + va.2.sum]) 1).map (·.result) =
+    some (.ok [[(5 + 21 + (1 + 25)) / 2]]) := by decide
+
+/-- **after cross-validation returns — with scores or with an error — the dataset holds its
+original rows in their original order** -/
+theorem cv_on_restores {α β ε μ σ} [Add σ] [Div σ] [OfNat σ 0] [NatCast σ]
+    (stdR stdT : Bool) (n k p t : Nat) (recs : List α) (tgts : List β)
+    (params : List (List α × List β → Except ε μ))
+    (score : μ → List α × List β → Except ε (List σ)) (nt : Nat)
+    (hr : recs.length = n * p) (hg : tgts.length = n * t)
+    (o : CvOut α β ε σ) (h : crossValidateOn stdR stdT n k p t recs tgts params score nt = some o) :
+    o.finalR = recs ∧ o.finalT = tgts := by
+  unfold crossValidateOn at h
+  cases hi : iterFoldLayout stdR stdT n k p t recs tgts with
+  | none => simp [hi] at h
+  | some io =>
+    simp only [hi, Option.some.injEq] at h
+    subst h
+    -- the layout guard passed, so this is `iterFold` under its own guard
+    unfold iterFoldLayout at hi
+    by_cases hgd : k = 0 ∨ n < k
+    · simp [hgd] at hi
+    · by_cases hstd : stdR = false ∨ stdT = false
+      · simp [hgd, hstd] at hi
+      · simp only [hgd, hstd, if_false] at hi
+        exact iterFold_restores n k p t recs tgts (by omega) (by omega) hr hg io hi
+
+example : (crossValidateOn (ε := String) (σ := Nat) true true 4 2 1 1 [0, 1, 2, 3] [10, 11, 12, 13]
+    [fun _ => (.error "fit:1" : Except String Nat)] (fun md va => .ok [md + va.2.sum]) 1).map
+    (fun o => (o.result, o.finalR, o.finalT)) =
+    some (.error "fit:1", [0, 1, 2, 3], [10, 11, 12, 13]) := by decide
+
+/-- **the full clause on the real calling form**: for every `0 < k ≤ n`, every record / target width
+`p, t > 0`, every list of parameter sets and every predict-then-eval function: if model `j` fitted
+on fold `i`'s training view is `md i j` and its evaluation on validation block `i` is the row
+`sc i j` (`nt` entries), then `cross_validate` returns a `models × nt` table whose entry `(j, c)` is
+the arithmetic mean over the `k` folds of `sc i j [c]`, and the dataset is handed back unchanged.
+(Composition of `cv_on_spec`, `cvFoldM_script` and `cv_is_mean`.) -/
+theorem cv_on_is_mean {α β ε μ σ} [Field σ] (n k p t : Nat) (recs : List α) (tgts : List β)
+    (params : List (List α × List β → Except ε μ))
+    (score : μ → List α × List β → Except ε (List σ)) (nt : Nat)
+    (hk : 0 < k) (hn : k ≤ n) (hp : 0 < p) (ht : 0 < t)
+    (hr : recs.length = n * p) (hg : tgts.length = n * t)
+    (md : Nat → Nat → μ) (sc : Nat → Nat → List σ)
+    (hfit : ∀ i, i < k → ∀ j (hj : j < params.length),
+      params[j] ((swapBlock recs i (n / k) p).drop (n / k * p), (swapBlock tgts i (n / k) t).drop (n / k * t))
+        = .ok (md i j))
+    (hsc : ∀ i, i < k → ∀ j, j < params.length →
+      score (md i j) (((chunks (n / k * p) recs)[i]?).getD [], ((chunks (n / k * t) tgts)[i]?).getD [])
+        = .ok (sc i j))
+    (hshape : ∀ i, i < k → ∀ j, j < params.length → (sc i j).length = nt) :
+    ∃ o res, crossValidateOn true true n k p t recs tgts params score nt = some o ∧
+      o.result = .ok res ∧ o.finalR = recs ∧ o.finalT = tgts ∧ res.length = params.length ∧
+      ∀ j c, j < params.length → c < nt →
+        entry res j c = ((List.range k).map fun i => ((sc i j)[c]?).getD 0).sum / (k : σ) := by
+  have hfs : 0 < n / k := Nat.div_pos hn hk
+  have hkn : k * (n / k) ≤ n := Nat.mul_div_le n k
+  -- the validation chunk lists have exactly k entries
+  have hlenR : ((chunks (n / k * p) recs).take k).length = k := by
+    rw [List.length_take, chunks_length, Nat.min_eq_left]
+    rw [Nat.le_div_iff_mul_le (Nat.mul_pos hfs hp)]
+    have : k * (n / k * p) ≤ recs.length := by
+      rw [hr, ← Nat.mul_assoc]; exact Nat.mul_le_mul_right _ hkn
+    have := Nat.mul_pos hfs hp
+    omega
+  have hlenT : ((chunks (n / k * t) tgts).take k).length = k := by
+    rw [List.length_take, chunks_length, Nat.min_eq_left]
+    rw [Nat.le_div_iff_mul_le (Nat.mul_pos hfs ht)]
+    have : k * (n / k * t) ≤ tgts.length := by
+      rw [hg, ← Nat.mul_assoc]; exact Nat.mul_le_mul_right _ hkn
+    have := Nat.mul_pos hfs ht
+    omega
+  have hvR := eq_map_range_getD _ k [] hlenR
+  have hvT := eq_map_range_getD _ k [] hlenT
+  set m := params.length with hm
+  -- the folds, one per index
+  let folds := (List.range k).map fun i =>
+    scriptOf (params.map fun f => f ((swapBlock recs i (n / k) p).drop (n / k * p), (swapBlock tgts i (n / k) t).drop (n / k * t)))
+      (fun mdl => score mdl (((chunks (n / k * p) recs)[i]?).getD [], ((chunks (n / k * t) tgts)[i]?).getD []))
+  have hspec := cv_on_spec n k p t recs tgts params score nt hk hn hr hg
+  have hfolds : ((((List.range k).map fun i =>
+              ((swapBlock recs i (n / k) p).drop (n / k * p), (swapBlock tgts i (n / k) t).drop (n / k * t))).zip
+            (((chunks (n / k * p) recs).take k).zip ((chunks (n / k * t) tgts).take k))).map
+            fun (tr, va) => scriptOf (params.map fun f => f tr) (fun mdl => score mdl va)) = folds := by
+    rw [hvR, hvT, List.zip_map', List.zip_map', List.map_map]
+    apply List.map_congr_left
+    intro i hi
+    have hi' : i < k := List.mem_range.mp hi
+    simp only [Function.comp]
+    rw [List.getElem?_take_of_lt hi', List.getElem?_take_of_lt hi']
+  rw [hfolds] at hspec
+  -- every fold succeeds with its score rows
+  have hfold : ∀ i, i < k →
+      cvFold (scriptOf (params.map fun f => f ((swapBlock recs i (n / k) p).drop (n / k * p), (swapBlock tgts i (n / k) t).drop (n / k * t)))
+        (fun mdl => score mdl (((chunks (n / k * p) recs)[i]?).getD [], ((chunks (n / k * t) tgts)[i]?).getD []))).1
+        (scriptOf (params.map fun f => f ((swapBlock recs i (n / k) p).drop (n / k * p), (swapBlock tgts i (n / k) t).drop (n / k * t)))
+        (fun mdl => score mdl (((chunks (n / k * p) recs)[i]?).getD [], ((chunks (n / k * t) tgts)[i]?).getD []))).2
+      = .ok ((List.range m).map (sc i)) := by
+    intro i hi
+    rw [← cvFoldM_script]
+    unfold cvFoldM
+    have hfits : (params.map fun f => f ((swapBlock recs i (n / k) p).drop (n / k * p), (swapBlock tgts i (n / k) t).drop (n / k * t)))
+        = (List.range m).map fun j => (Except.ok (md i j) : Except ε μ) := by
+      apply List.ext_getElem?
+      intro j
+      by_cases hj : j < m
+      · simp only [List.getElem?_map, List.getElem?_eq_getElem (hm ▸ hj), Option.map_some,
+          List.getElem?_range hj]
+        rw [hfit i hi j (hm ▸ hj)]
+      · simp [hj, List.getElem?_eq_none (by omega : params.length ≤ j)]
+    rw [hfits, mapM_id_map, mapM_ok_map _ (md i) _ (fun _ _ => rfl)]
+    simp only []
+    rw [mapM_map']
+    exact mapM_ok_map _ (sc i) _ (fun j hj => hsc i hi j (List.mem_range.mp hj))
+  have hall : folds.mapM (fun f => cvFold f.1 f.2) = .ok ((List.range k).map fun i => (List.range m).map (sc i)) := by
+    simp only [folds]
+    rw [mapM_map']
+    exact mapM_ok_map _ _ _ (fun i hi => hfold i (List.mem_range.mp hi))
+  obtain ⟨res, hres, hlen, hent⟩ := cv_is_mean (ε := ε) k m nt folds _ hall (by
+    intro fe hfe
+    simp only [List.mem_map, List.mem_range] at hfe
+    obtain ⟨i, hi, rfl⟩ := hfe
+    refine ⟨by simp, ?_⟩
+    intro r hr'
+    simp only [List.mem_map, List.mem_range] at hr'
+    obtain ⟨j, hj, rfl⟩ := hr'
+    exact hshape i hi j hj)
+  refine ⟨_, res, hspec, hres, rfl, rfl, hlen, ?_⟩
+  intro j c hj hc
+  rw [hent j c hj hc, List.map_map]
+  congr 2
+  apply List.map_congr_left
+  intro i hi
+  simp [Function.comp, entry, hj]
+
+example : ∀ i, i < 2 → ∀ j (hj : j < [fun tr : List Nat × List Nat => (Except.ok tr.1.sum : Except String Nat)].length),
+    [fun tr : List Nat × List Nat => (Except.ok tr.1.sum : Except String Nat)][j]
+      ((swapBlock [0, 1, 2, 3] i (4 / 2) 1).drop (4 / 2 * 1), (swapBlock [10, 11, 12, 13] i (4 / 2) 1).drop (4 / 2 * 1))
+      = .ok (if i = 0 then 5 else 1) := by
+  intro i hi j hj
+  have hj0 : j = 0 := by simpa using hj
+  subst hj0
+  rcases i with _ | _ | i
+  · rfl
+  · rfl
+  · omega
 
 end LinfaSpec.Props.C01
